@@ -230,3 +230,36 @@ Proof.
       unfold ret. f_equal. f_equal. change (2 ^ N.succ 0) with 2 in Hi. lia.
     + rewrite rbitsN_n2b by exact X. unfold ret. f_equal. f_equal. lia.
 Qed.
+
+(* ------------------------------------------------------------------ context tables *)
+(* the encoder's literal-context lookup tables (constants.rs, regenerated) are the RFC's Lut0/Lut1/Lut2,
+   so encoder and decoder spec compute the same context ID for every pair of previous bytes *)
+From V Require Import gen.GenFormat.
+Lemma context_tables_match :
+  rfc_lut0 ++ rfc_lut1 = kUTF8ContextLookup /\ rfc_lut2 = kSigned3BitContextLookup.
+Proof. split; reflexivity. Qed.
+
+Definition enc_context (mode p1 p2 : N) : N :=
+  if mode =? 0 then N.land p1 63
+  else if mode =? 1 then N.shiftr p1 2
+  else if mode =? 2 then N.lor (nthN kUTF8ContextLookup p1) (nthN kUTF8ContextLookup (256 + p2))
+  else N.shiftl (nthN kSigned3BitContextLookup p1) 3 + nthN kSigned3BitContextLookup p2.
+
+Lemma context_id_matches_encoder mode p1 p2 : mode < 4 -> p1 < 256 -> p2 < 256 ->
+  context_id mode p1 p2 = enc_context mode p1 p2.
+Proof.
+  intros Hm H1 H2.
+  assert (A : forallb (fun m => forallb (fun a => forallb (fun b => context_id m a b =? enc_context m a b)
+                (seqN 0 256)) (seqN 0 256)) [0; 1; 2; 3] = true) by (vm_compute; reflexivity).
+  rewrite forallb_forall in A.
+  assert (Im : In mode [0; 1; 2; 3]).
+  { assert (mode = 0 \/ mode = 1 \/ mode = 2 \/ mode = 3) by lia. cbn. intuition. }
+  specialize (A mode Im). rewrite forallb_forall in A.
+  assert (In_seq : forall x, x < 256 -> In x (seqN 0 256)).
+  { intros x Hx. assert (G : forall n lo, lo <= x -> x < lo + N.of_nat n -> In x (seqN lo n)).
+    { induction n as [|n IH]; intros lo L U; [lia|]. cbn [seqN].
+      destruct (N.eq_dec x lo) as [->|Hne]; [left; reflexivity|right; apply IH; lia]. }
+    apply G; [lia|cbn; lia]. }
+  specialize (A p1 (In_seq p1 H1)). rewrite forallb_forall in A.
+  specialize (A p2 (In_seq p2 H2)). apply N.eqb_eq in A. exact A.
+Qed.
